@@ -21,7 +21,9 @@ EdgeView == <<rules, env, NM(ws), NM(cache), hist, NM(fstab), rdir, ClockView, m
 \* finer: the ghost record (pre-state of the invocation, what was backed up / taken / executed) also distinguishes paths
 EdgeViewG == <<EdgeView, GView>>
 
-EmitHeader == (ev.a = "init") => PrintT(<<"SCENARIO", ToJson([ord |-> Ord0, menu |-> Menu, init |-> Init0])>>)
+EmitHeader == (ev.a = "init") => PrintT(<<"SCENARIO", ToJson([ord |-> Ord0, menu |-> Menu, init |-> Init0, clock |-> ClockModel])>>)
+\* a counterexample of the model (with a Defects switch on) as a replay script: printed when P fails
+Cex(name, P) == P \/ (PrintT(<<"PREFIX", ToJson(tr)>>) /\ FALSE)
 EmitPrefix == (Free /\ mode # "idle") => PrintT(<<"PREFIX", ToJson(tr)>>)
 \* for simulation mode: one complete behaviour per line
 EmitDone == (mode = "idle" /\ g.nuser = MaxUser) => PrintT(<<"PREFIX", ToJson(tr)>>)
